@@ -540,6 +540,40 @@ func (cg *caseGen) dupErrShape() {
 	cg.dupActs = []*pvcase.Expr{ai, aj}
 }
 
+// tailObserver makes the start rule end in terminals that are tried - and mostly fail - wherever the body stopped
+// (very often the end of the input), followed by a block that observes the position there: `body !lit (&lit)? &{...}`,
+// `body lit? (!. {...})?`. What a failed terminal leaves behind at the end of input is visible only to such a block.
+func (cg *caseGen) tailObserver() {
+	r0 := cg.rules[0]
+	probe := func() *pvcase.Expr {
+		rs := []rune{cg.pick(cg.alpha)}
+		if cg.f.anyBoost && cg.chance(0.5) {
+			rs[0] = 0xFFFD // equal to the end-of-input sentinel
+		}
+		for cg.chance(0.4) {
+			rs = append(rs, cg.pick(cg.alpha))
+		}
+		return mkLit(rs, cg.chance(0.2))
+	}
+	kids := []*pvcase.Expr{r0.Expr}
+	for n := 1 + cg.r.IntN(2); n > 0; n-- {
+		switch cg.r.IntN(3) {
+		case 0:
+			kids = append(kids, un(pvcase.KNot, probe()))
+		case 1:
+			kids = append(kids, un(pvcase.KOpt, probe()))
+		default:
+			kids = append(kids, un(pvcase.KOpt, un(pvcase.KAnd, probe())))
+		}
+	}
+	if cg.chance(0.3) {
+		kids = append(kids, &pvcase.Expr{Kind: pvcase.KAndc}) // (sees the position of the last action: finding D2)
+	} else {
+		kids = append(kids, un(pvcase.KOpt, un(pvcase.KAct, un(pvcase.KNot, &pvcase.Expr{Kind: pvcase.KAny}))))
+	}
+	r0.Expr = seqOf(kids...)
+}
+
 func fuelFor(maxExpr uint64) uint64 {
 	if maxExpr == 0 {
 		return 400
@@ -732,6 +766,9 @@ func (g *generator) genCase(prof string) ([]*pvcase.Case, *caseGen) {
 		}
 		if prof != "lr" && !lrBudget && !wide && !divergent && cg.f.act && cg.f.errP > 0 && len(cg.rules) >= 2 && cg.chance(0.12) {
 			cg.dupErrShape()
+		}
+		if prof != "lr" && !lrBudget && !wide && !divergent && !cg.f.wild && cg.f.act && cg.chance(map[bool]float64{true: 0.35, false: 0.12}[prof == "utf8"]) {
+			cg.tailObserver()
 		}
 		c.Grammar.Rules = cg.rules
 		if (pvterm.Budgeted(c) && (cg.f.wild || divergent)) || pvterm.Check(c) == nil {
